@@ -81,3 +81,6 @@ func __failed(name string) bool { return false }
 // __fresh: the slice is nil or its backing array was allocated by the
 // function under verification (verifier only).
 func __fresh[T any](s []T) bool { return true }
+
+// __ghost: value of a ghost event counter defined by ghost-inc clauses (verifier only).
+func __ghost(name string) int { return 0 }
